@@ -42,7 +42,7 @@ fn cfg_eval(meta: &Meta) -> Option<bool> {
             Some(match n.as_str() {
                 "target_arch" => v == "x86_64",
                 "target_os" => v == "linux",
-                "feature" => true,
+                "feature" => v != "verif_hooks",
                 _ => return None,
             })
         }
@@ -282,6 +282,7 @@ fn main() {
     let mut variant = "conc".to_string();
     let mut out = String::new();
     let mut vacuity = false;
+    let mut vacuity_all = false;
     let mut i = 1;
     while i < args.len() {
         match args[i].as_str() {
@@ -291,6 +292,7 @@ fn main() {
             "--variant" => { variant = args[i + 1].clone(); i += 2; }
             "--out" => { out = args[i + 1].clone(); i += 2; }
             "--vacuity" => { vacuity = true; i += 1; }
+            "--vacuity-all" => { vacuity = true; vacuity_all = true; i += 1; }
             other => die(&format!("unknown argument {}", other)),
         }
     }
@@ -388,6 +390,7 @@ fn main() {
     // ---------------------------------------------------------------- emit
     let mut em = emit::Emitter::new(&u, &variant, &verif);
     em.vacuity = vacuity;
+    em.vacuity_all = vacuity_all;
     for (st, ss) in struct_items.iter() {
         em.add_struct(st, ss);
     }
